@@ -21,6 +21,8 @@ pub struct Task {
     pub l: u8,
     pub rounds: usize,
     pub bound: usize,
+    /// responses become deliverable this many receive calls after the probe was sent
+    pub latency: usize,
 }
 
 pub fn scfg(t: &Task) -> SCfg {
@@ -46,6 +48,7 @@ pub fn scfg(t: &Task) -> SCfg {
         },
         burst: vec![],
         script: vec![],
+        latency: t.latency,
         strategy: strat::strategy_config(t.proto, t.first_ttl, t.max_ttl, t.max_inflight, t.rounds, min_round, max_round, grace, 33434),
     }
 }
@@ -154,7 +157,7 @@ pub fn monitor(t: &Task, o: &SOutcome) -> Vec<(String, String)> {
 }
 
 pub fn task_json(t: &Task) -> Value {
-    json!({"proto": format!("{}", t.proto), "first_ttl": t.first_ttl, "max_ttl": t.max_ttl, "max_inflight": t.max_inflight, "target_distance": t.l, "rounds": t.rounds})
+    json!({"proto": format!("{}", t.proto), "first_ttl": t.first_ttl, "max_ttl": t.max_ttl, "max_inflight": t.max_inflight, "target_distance": t.l, "rounds": t.rounds, "latency": t.latency})
 }
 
 pub fn task_from_json(v: &Value) -> Task {
@@ -170,6 +173,7 @@ pub fn task_from_json(v: &Value) -> Task {
         l: v["target_distance"].as_u64().unwrap() as u8,
         rounds: v["rounds"].as_u64().unwrap() as usize,
         bound: 0,
+        latency: v["latency"].as_u64().unwrap_or(0) as usize,
     }
 }
 
@@ -201,7 +205,9 @@ pub fn run(args: &Args) -> i32 {
                 for max_inflight in [1u8, 2, 3, 24, 255] {
                     for l in [1u8, 2, 3, 6, 0] {
                         let big = u16::from(max_ttl - first_ttl) > 8 && max_inflight > 3;
-                        tasks.push(Task { proto, first_ttl, max_ttl, max_inflight, l, rounds: 3, bound: if big { bound.min(2) } else { bound } });
+                        for latency in [0usize, 2] {
+                            tasks.push(Task { proto, first_ttl, max_ttl, max_inflight, l, rounds: 3, bound: if big { bound.min(2) } else { bound }, latency });
+                        }
                     }
                 }
             }
@@ -290,7 +296,7 @@ pub fn run(args: &Args) -> i32 {
     rep.set("bound_completed", json!(bound));
     rep.set("horizon_hits", json!(stats.horizon_hits));
     rep.set("determinism_replays", json!(replays));
-    rep.set("rule", json!(format!("protocol {{icmp,tcp}} x first_ttl {{1,2,5,30,253,254}} x max_ttl {{1,3,6,64,254}} x max_inflight {{1,2,3,24,255}} x target distance {{1,2,3,6,silent}}, 3 rounds: all executions of the real Strategy::run with <= {bound} deviations (delay, reorder, duplicate, loss at recv_probe; AddressInUse at send_probe for tcp); monitor on the send/receive call trace; states = nodes of the choice tree; distinct_nontrivial = distinct (send trace, publish times) digests")));
+    rep.set("rule", json!(format!("protocol {{icmp,tcp}} x first_ttl {{1,2,5,30,253,254}} x max_ttl {{1,3,6,64,254}} x max_inflight {{1,2,3,24,255}} x target distance {{1,2,3,6,silent}} x response latency {{0, 2 receive calls}}, 3 rounds: all executions of the real Strategy::run with <= {bound} deviations (delay, reorder, duplicate, loss at recv_probe; AddressInUse at send_probe for tcp); monitor on the send/receive call trace; states = nodes of the choice tree; distinct_nontrivial = distinct (send trace, publish times) digests")));
     for s in samples {
         rep.sample(s);
     }
